@@ -77,6 +77,15 @@ class PE(BinFormat):
         return self.NT
 
     def __init__(self, data):
+        try:
+            self.__parse(data)
+        except (PEError, StructureError):
+            raise
+        except Exception as e:
+            # malformed content is reported as a PEError only:
+            raise PEError("malformed PE file (%s)" % repr(e))
+
+    def __parse(self, data):
         self.data = data
         # parse DOS header:
         try:
